@@ -40,6 +40,11 @@ CHECKS = {
   text="Kernel-checked over Model/Expr.lean for every expression tree (unbounded size): C10_bal_norm, C10_top_oneGroup (what is stored is one parenthesised group), C10_derivable (for every tree obeying the ladder's level discipline, the normalised tokens are a sentence of the grammar ladder G, derived as `re e` at the tree's own level — the added parentheses are never *needed* to regroup), C10_shape_re (re e has the same operator tree, operands and operator spellings: added parentheses never regroup operands), C10_norm_re (re-reading and re-normalising gives the same string), C10_leaves_in_order (operands and operator spellings unchanged and in order); Ladder.* (`decide` over Gen/Grammar.lean: or_test, and_test, comparison, sum/add/sub, product/mul/div/power, unary_expr/neg, atom, expression, not_expression, func_call, value, compare_op have exactly the alternatives G was written from). C10_old_test_witness keeps the repaired defect as a witness. Tied to transformer.py by exact-string correspondence on the real Lark tree of every generated expression; the oracle reads the stored string with an independent precedence parser (same operator tree, same leaves, one group, dumps/loads fixpoint) for all tree shapes up to a bound and random trees to 40 operators.",
   note="Trusted: Lean kernel; hand model of the expression call-backs (correspondence each run); grammar tables regenerated through Lark's loader; Lark's LALR shift preference (that the real parser derives exactly the ladder's tree) is exercised, not proved; function arguments are operands; '%' (comparison operator in the grammar, arithmetic in the property text) and the literal 0 under unary minus are not generated.",
   ref="§6 C10"),
+ "C09": dict(
+  technique="Lean 4 proofs over a store-with-sharing model of the version filter (range test; the in-place walk equals the specification filter on expanded trees; unannotated entries untouched; idempotence; per-Validator cache transparency by induction over call histories) + `decide +kernel` obligations over the regenerated schema folder + correspondence of expanded views for every schema × version class and call histories",
+  text="Kernel-checked over Model/Versioning.lean: C09_valid_iff (is_valid_for_version ⇔ minVersion ≤ v ≤ maxVersion with defaults 0/1000), C09_tree_spec (on every reference-free properties dict, for every walk budget and store, get_versioned_properties returns exactly the specification filter — every dict-valued entry and every dict alternative is dropped iff out of range, at every depth — and leaves the store alone), C09_keyword_kept_iff / C09_alternative_kept_iff, C09_unannotated_id (a schema without metadata entries is returned unchanged for every version), C09_spec_idem (filtering twice = once, for schemas whose metadata entries are flat), C09_no_version / C09_zero_version (no version, or 0: nothing filtered), C09_versioned_step and C09_cache_transparent (for EVERY history of get_versioned_schema requests on one Validator — any names, versions, order, repetition — each answer is a fresh Validator's answer; invariant: a cache entry is the loaded schema or its pruned form for its own key), with the premise PruneIdem executed for every schema × version class; C09_acyclic, C09_files_metaWF, C09_files_bounds (`decide +kernel` over Gen/Schemas.lean: the $ref graph is acyclic within the walk budget and resolves, every metadata entry is a flat dict with decimal bounds). Tied to validator.py by exact comparison of the fully expanded views for all 37 schema files × 39 version points and for random call histories on one Validator; oracles: the real versioned schema equals an independently written tree filter of the real version-less expansion; generated documents using each of the 89 annotated keywords are rejected exactly outside the range (fresh and reused Validator); exports and answers on a reused Validator equal a fresh one's.",
+  note="Trusted: Lean kernel; hand model of the validator's version functions incl. jsonref's sharing of referenced documents (correspondence each run); Gen/Schemas regenerated; PruneIdem for the shared store is executed per schema × class, not yet kernel-proved (proved for reference-free schemas); KeysInj (name+str(version) collisions) is a hypothesis; float comparison as decimal comparison; jsonschema's verdict on the pruned schema is third-party (exercised by the keyword-document oracle).",
+  ref="§6 C09"),
 }
 NOT_APPLICABLE = {}
 ALL = [f"C{i:02d}" for i in range(1, 21)]
